@@ -404,7 +404,7 @@ func TestCheck(t *testing.T) {
 	})
 
 	// Phase B4: very many distinct versions through the string helpers in one process, in ascending order.
-	nMany := int64(r.Pick(6000000, 60000000))
+	nMany := int64(r.Pick(20000000, 60000000))
 	r.Phase(fmt.Sprintf("B4: %d distinct ascending versions compared with their successor through Compare / CompareVersion / LatestTag", nMany), func() {
 		text := func(i int64, buf []byte) []byte {
 			buf = strconv.AppendUint(buf[:0], uint64(i/(307*211)), 10)
